@@ -241,7 +241,8 @@ def strict_api_refusals(run, rng, dist):
                     return None
                 return 'X' * (mxl + 1) if mxl is not None else None
             for dt, bad in (('ST', too_long('ST')), ('NM', 'abc'), ('DT', '20201301'), ('SI', '12345'),
-                            ('IS', too_long('IS'))):
+                            ('IS', too_long('IS')), ('TN', 'ask for Mr. Smith 555-1234'), ('TN', 'n/a since 1998'),
+                            ('TN', 'x 12'), ('ID', too_long('ID')), ('TX', too_long('TX'))):
                 if dt in lib.get_base_datatypes() and bad is not None:
                     accepted('invalid-value', lambda dt=dt, bad=bad: SubComponent(datatype=dt, value=bad, version=v,
                              validation_level=S.STRICT), True, datatype=dt, value=bad[:20])
